@@ -254,6 +254,29 @@ func (g *authGen) request() reqSpec {
 		for k := r.Range(1, 3); k > 0; k-- {
 			q.parts = append(q.parts, g.part(q.sep, source))
 		}
+		if route == "data" && r.Chance(0.25) {
+			// one file travelling as two chunks of one request (the names repeat; each part carries its own rename
+			// target and predecessor, and the part that completes the file decides where it lands)
+			p1 := g.part(q.sep, source)
+			p1.kind, p1.size = "p", []int{2, 6, 64}[r.Intn(3)]
+			p2 := p1
+			p2.kind = "q"
+			if r.Chance(0.3) {
+				p2.renamed = "renamed/" + g.tok() + ".dat"
+			}
+			q.parts = append(q.parts, p1, p2)
+			if r.Chance(0.4) {
+				// the traversal only in the LATER part of the file
+				switch r.Intn(3) {
+				case 0:
+					q.parts[len(q.parts)-1].renamed = g.evilName("")
+				case 1:
+					q.parts[len(q.parts)-1].renamed = g.evilName(q.sep)
+				default:
+					q.parts[len(q.parts)-1].prev = g.evilName(q.sep)
+				}
+			}
+		}
 		if r.Chance(0.3) {
 			g.spoil(q.parts, q.sep)
 		}
@@ -424,6 +447,10 @@ func (authComp) Corpus() [][]string {
 		// an empty name / a name that is the stage root itself: the final root of the source becomes a file
 		{"conf ~ ~", rq("PUT", "/data", "src1", "", "/", "parts", w("", "", "")), rq("PUT", "/data", "src1", "", "/", "parts", w(".", "", "")),
 			rq("PUT", "/data", "src1", "", "/", "parts", w("dir/..", "", ""))},
+		// one file as two chunks of one request: every part's rename target and predecessor are checked, also the later ones
+		{"conf ~ ~", rq("PUT", "/data", "src1", "", "/", "parts", partSpec{"d/two.dat", "", "", 6, "p"}, partSpec{"d/two.dat", "../../two-escape.txt", "", 6, "q"}),
+			rq("PUT", "/data", "src1", "", "/", "parts", partSpec{"d/three.dat", "", "", 6, "p"}, partSpec{"d/three.dat", "", "../../pred.dat", 6, "q"}),
+			rq("PUT", "/data", "src1", "", "/", "parts", partSpec{"d/four.dat", "", "", 6, "p"}, partSpec{"d/four.dat", "renamed/four.dat", "", 6, "q"})},
 		// unsafe predecessor, unsafe names on the routes that only look things up
 		{"conf ~ ~", rq("PUT", "/data", "src1", "", "/", "parts", w("a.dat", "", "../../b.dat")),
 			rq("PUT", "/data-recovery", "src1", "", "/", "parts", w("../../../x.dat", "", "")),
